@@ -188,27 +188,18 @@ theorem invert_invert (X : Transform K) (h : IsProper X.R) : X.invert.invert = X
 /-! ## Re-expression of a symmetric matrix -/
 
 /-- **`reexpressSymMat33` (Featherstone's 57-flop trick) equals `R S Rᵀ`** for every proper rotation `R` and
-symmetric `S` — all nine entries -/
+symmetric `S` — all nine entries (proof: `Spatial.Rotation.reexpressSymMat33_eq'` in SimbodyProofs/Spatial.lean,
+by explicit `linear_combination` certificates over the orthonormality and cofactor relations) -/
 theorem reexpressSymMat33_eq (R : Mat33 K) (h : IsProper R) (S : SymMat33 K) :
-    (reexpressSymMat33 R S).toMat33 = (R.mul S.toMat33).mul R.transpose := by
-  have hadj := h.adj_eq
-  have hm := h.mult
-  have ht := h.tmul
-  simp only [Mat33.adj, Mat33.transpose, Mat33.mul, Mat33.one, Mat33.diag, Mat33.mk.injEq] at hadj hm ht
-  obtain ⟨k00, k01, k02, k10, k11, k12, k20, k21, k22⟩ := hadj
-  obtain ⟨m00, m01, m02, m10, m11, m12, m20, m21, m22⟩ := hm
-  obtain ⟨t00, t01, t02, t10, t11, t12, t20, t21, t22⟩ := ht
-  simp only [reexpressSymMat33, SymMat33.toMat33, Mat33.mul, Mat33.transpose]
-  ext <;> simp only []
-  · linear_combination (-S.zz) * m00 + (-S.xx + S.zz) * t00 + (-2*S.xy) * t01 + (-2*S.xz) * t02 + (-S.yy + S.zz) * t11 + (-2*S.yz) * t12
-  · linear_combination (-S.zz) * m01 + (S.yz) * k02 + (-S.xz) * k12
-  · linear_combination (-S.yz) * k01 + (-S.zz) * m02 + (S.xz) * k11
-  · linear_combination (-S.zz) * m01 + (S.yz) * k02 + (-S.xz) * k12
-  · linear_combination (-S.zz) * m11
-  · linear_combination (S.yz) * k00 + (-S.xz) * k10 + (-S.zz) * m12
-  · linear_combination (-S.yz) * k01 + (-S.zz) * m02 + (S.xz) * k11
-  · linear_combination (S.yz) * k00 + (-S.xz) * k10 + (-S.zz) * m12
-  · linear_combination (-S.zz) * m22
+    (reexpressSymMat33 R S).toMat33 = (R.mul S.toMat33).mul R.transpose :=
+  Spatial.Rotation.reexpressSymMat33_eq' R h S
+
+/-- `InverseRotation_::reexpressSymMat33`: the same routine on the transposed matrix gives `Rᵀ S R` -/
+theorem reexpressSymMat33_inverse (R : Mat33 K) (h : IsProper R) (S : SymMat33 K) :
+    (reexpressSymMat33 R.transpose S).toMat33 = (R.transpose.mul S.toMat33).mul R := by
+  have := Spatial.Rotation.reexpressSymMat33_eq' R.transpose h.transpose S
+  rwa [Mat33.transpose_transpose] at this
+
 /-! ## Orthonormal triples -/
 
 /-- orthonormal columns and determinant one already give a proper rotation -/
